@@ -155,8 +155,12 @@ func (h *Handler) handleRequest(host *packet.Host, p packet.DHCP4, options packe
 		// the address on offer may have been acknowledged to another client since we offered it
 		offerTaken := false
 		if lease.State == StateDiscover {
-			if l := h.findByIP(lease.IPOffer); l != nil && l != lease && l.State == StateAllocated {
-				offerTaken = true
+			// (the client's own previous binding may carry the same address: look at every other lease)
+			for _, l := range h.table {
+				if l != lease && l.State == StateAllocated && l.Addr.IP == lease.IPOffer {
+					offerTaken = true
+					break
+				}
 			}
 		}
 		if !bytes.Equal(lease.Addr.MAC, p.CHAddr()) || // invalid hardware
